@@ -168,6 +168,6 @@ def prop_complete(case, ctx):
 
 
 SUBCHECKS = [
-    Sub("calls", prop_call, strategy=calls, quick=1500, thorough=12000),
+    Sub("calls", prop_call, strategy=calls, quick=3000, thorough=15000),
     Sub("catalogue_complete", prop_complete, enumerate=enum_complete, shards=1),
 ]
